@@ -141,3 +141,69 @@ theorem packDfs_topo (hW : WFU G rk) {ps : List Pass} (h : packDfs Rules.current
   · exact absurd h1 hnotafter
 
 end VelaVerif.Lemmas.PassPackingDfs
+
+namespace VelaVerif.Lemmas.PassPackingDfs
+open VelaVerif.PassPacking VelaVerif.Gen.PassPacking VelaVerif.PassPackingSpec VelaVerif.Lemmas.PassPackingWalk
+
+variable {G : Graph} {rk : Nat → Nat}
+
+theorem buildPass_not_startup {s : Nat} {p : Pass} (h : buildPass Rules.current G s = .ok p) : p.isStartup = false := by
+  obtain ⟨ofm, ofs, hfin, _⟩ := buildPass_ok Rules.current G h
+  obtain ⟨_, hp⟩ := finishPass_ok G hfin
+  rw [hp]; rfl
+
+theorem buildStartupPass_isStartup {l : List Nat} {sp : Pass} (h : buildStartupPass Rules.current G l = .ok sp) : sp.isStartup = true := by
+  unfold buildStartupPass at h
+  split at h
+  · simp at h
+  · split at h
+    · simp at h
+    · simp only [Except.ok.injEq] at h; rw [← h]
+
+/-- **(c)** for the whole list: every pass but the start-up pass has the shape of the Spec, the start-up pass holds start-up
+    operators only -/
+theorem packDfs_shape (hW : WFU G rk) (hbt : MainHasBlock G) {ps : List Pass} (h : packDfs Rules.current G = .ok ps) :
+    ∀ p ∈ ps, (p.isStartup = false → passShapeB G (toSpec p) = true) ∧
+      (p.isStartup = true → ∀ o ∈ p.ops, startupInitOps.contains (G.op o).type = true) := by
+  obtain ⟨d, hA, _, _, hcase⟩ := packDfs_ok hW h
+  have htrav : ∀ p ∈ d.passes, (p.isStartup = false → passShapeB G (toSpec p) = true) ∧
+      (p.isStartup = true → ∀ o ∈ p.ops, startupInitOps.contains (G.op o).type = true) := by
+    intro p hp
+    obtain ⟨s, hs⟩ := hA.built p hp
+    refine ⟨fun _ => buildPass_shape G hs hbt, fun hst => ?_⟩
+    rw [buildPass_not_startup hs] at hst; exact Bool.noConfusion hst
+  rcases hcase with ⟨_, rfl⟩ | ⟨sp, hsp, rfl, _, hmem⟩
+  · exact htrav
+  · intro p hp
+    rcases List.mem_cons.mp hp with rfl | hp
+    · refine ⟨fun hst => ?_, fun _ o ho => hA.startupT o ((hmem o).mp ho)⟩
+      rw [buildStartupPass_isStartup hsp] at hst; exact Bool.noConfusion hst
+    · exact htrav p hp
+
+end VelaVerif.Lemmas.PassPackingDfs
+
+namespace VelaVerif.Lemmas.PassPackingDfs
+open VelaVerif.PassPacking VelaVerif.Gen.PassPacking VelaVerif.PassPackingSpec VelaVerif.Lemmas.PassPackingWalk
+
+/-- executable form of `MainHasBlock` -/
+def mainHasBlockB (G : Graph) : Bool :=
+  G.ops.all fun o => !(macMainOps ++ elemWiseMainOps ++ memcpyOps).contains o.type || blockTypeOf o.type != 0
+
+theorem mainHasBlock_of_check (G : Graph) (h : mainHasBlockB G = true) : MainHasBlock G := by
+  intro o hm
+  by_cases ho : o < G.ops.length
+  · unfold mainHasBlockB at h
+    rw [List.all_eq_true] at h
+    have hmem : G.op o ∈ G.ops := by
+      unfold Graph.op
+      rw [List.getD_eq_getElem?_getD, List.getElem?_eq_getElem ho]
+      exact List.getElem_mem ho
+    have := h (G.op o) hmem
+    simp only [Bool.or_eq_true, Bool.not_eq_true', bne_iff_ne, ne_eq] at this
+    rcases this with h1 | h1
+    · rw [List.contains_iff_mem.mpr hm] at h1; exact Bool.noConfusion h1
+    · exact h1
+  · rw [op_default ho]
+    decide
+
+end VelaVerif.Lemmas.PassPackingDfs
